@@ -88,7 +88,7 @@ MODES = ("max", "min", "zero", "random", "plausible", "keep")
 
 def compare(ctx, desc, inst, enc, e, perm, y, hist):
     ctx.case()
-    enc.decode(wb.x_array(perm, inst), y)
+    enc.decode(wb.x_buffer(perm, inst), y)
     rows = wb.rows_of(y)
     mrows, mk, st = ibl.decode(desc["W"], desc["H"], desc["items"], perm,
                                first_fit=(e == 2))
